@@ -108,9 +108,17 @@ TC12NoPatch == /\ ("Written" \in t.have /\ t.chosen = <<>>) => t.written = t.req
 TC12Actionable == "Chosen" \in t.have => \A k \in 1..Len(t.chosen) : Applied(k).fixed \cap t.unact = {}
 
 (* ---- conformance of the observed pipeline with the transcription in Remediation ---- *)
-\* choosePatches: the applied patches are exactly the greedy choice over the proposed list (in its order)
+\* choosePatches: the applied patches are A greedy choice over the proposed list. Patch.Compare leaves ties (equal
+\* rank, different patches) in goroutine-completion order, so the exact order is not observable; what every greedy
+\* pass guarantees is: applied patches are proposed, pairwise compatible, and no compatible proposed patch is left
+\* out unless the limit was reached (ChooseOp of Remediation is one such pass).
+Conflict(x, y) == (\E u \in x.ups, w \in y.ups : u.name = w.name /\ u.from = w.from) \/ x.fixed \cap y.fixed # {}
 TChooseOp == ("Chosen" \in t.have /\ t.scn.mode = "fix") =>
-                t.chosen = ChooseOp(SubSeq(t.patches, 1, t.proposed), t.scn.maxUpgrades, t.scn.noIntroduce)
+                /\ \A i \in 1..Len(t.chosen) : t.chosen[i] \in 1..t.proposed
+                /\ \A i, j \in 1..Len(t.chosen) : i # j => (t.chosen[i] # t.chosen[j] /\ ~Conflict(Applied(i), Applied(j)))
+                /\ (t.scn.maxUpgrades <= 0 \/ Len(t.chosen) < t.scn.maxUpgrades) =>
+                      \A k \in 1..t.proposed : (k \notin ToSet(t.chosen) /\ ~(t.scn.noIntroduce /\ t.patches[k].intro # {}))
+                                                   => \E i \in 1..Len(t.chosen) : Conflict(t.patches[k], Applied(i))
 TMaxUpgrades == ("Chosen" \in t.have /\ t.scn.mode = "fix" /\ t.scn.maxUpgrades > 0) => Len(t.chosen) <= t.scn.maxUpgrades
 TNoIntroduce == ("Chosen" \in t.have /\ t.scn.noIntroduce) => \A k \in 1..Len(t.chosen) : Applied(k).intro = {}
 \* Write: the requirements on disk are the parsed ones with the updates of the applied patches
